@@ -35,7 +35,8 @@ RULE = ("six families x designs n 20..120 (quick) / 20..500 (thorough), p 1..6 w
         "changes and read-set-read chains (op hist2), every fit / read compared with a fresh twin; exact coincidences: offsets "
         "summing to exactly 0.0 (+-ln 2 alternating, +-c pairs, [c, c, -2c], antisymmetric, centred integers), constant, single "
         "non-zero, equal to a design column; weights all 1 / all 2 / with exact zeros / summing to exactly n; Gaussian responses "
-        "summing to exactly 0; "
+        "summing to exactly 0; slow linear convergence (alpha = 10, prior weights 0.01..0.1, tol 1e-13/1e-14, max_iter 5000) placed by "
+        "a double-precision replica of the loop in the pass-count bands 130-190, 193-260, 300-600, 1000-4000; "
         "non-trivial = distinct (family, p, weights?, offset?, alpha, tolerance decade, status)")
 EXHAUSTIVE = {"quick": False, "thorough": False}
 NOT_PROVED = [
@@ -358,6 +359,15 @@ def corpus():
     yo = [float(v) for v in [7, 1, 9, 2, 6, 1, 8, 0, 10, 2, 7, 1, 5, 2, 9, 1, 8, 3, 6, 1, 11, 1, 7, 2, 9, 0, 6, 1, 8, 2, 10, 1, 7, 1, 6, 2, 9, 1, 8, 1]]
     L.append(mkline("poisson", 40, 2, xo, yo, None, oo, 0.0, 1e-10, 200))
     L.append(mkline("poisson", 40, 2, xo, yo, None, oo, 0.1, 1e-10, 200))
+    # seeded change C06y (tolerance relaxed to sqrt(tol) after 192 passes): rare-event Bernoulli, n = 40, p = 3, prior weights in
+    # [0.02, 0.05], alpha = 10, tol 1e-13: the intercept converges linearly (alpha on its Hessian diagonal, none in its score),
+    # ~1050 passes on the unchanged tree
+    cs1 = standardise([math.sin(1.3 * i + 0.4) for i in range(40)])
+    cs2 = standardise([((i * 7) % 11) / 5.0 - 1.0 for i in range(40)])
+    xs = [v for i in range(40) for v in (1.0, cs1[i], cs2[i])]
+    ys = [1.0 if i in (3, 9, 14, 22, 27, 31, 36) else 0.0 for i in range(40)]
+    ws = [0.02 + 0.03 * ((i * 13) % 17) / 16.0 for i in range(40)]
+    L.append(mkline("bernoulli", 40, 3, xs, ys, ws, None, 10.0, 1e-13, 5000))
     # panic classes
     L.append(mkline("gaussian", 6, 2, [2.0] + x[1:], y, None, None, 0.0, 1e-8, 50))          # not a design matrix
     L.append(mkline("gaussian", 6, 2, x, y, [1.0, 2.0], None, 0.0, 1e-8, 50))                 # wrong number of weights
@@ -421,6 +431,7 @@ def gen(rng, tier):
     history_strata(rng.fork("history"), tier, lines, cover)
     read_history_strata(rng.fork("read-history"), tier, lines, cover)
     coincidence_strata(rng.fork("coincidence"), tier, lines, cover)
+    slow_strata(rng.fork("slow"), tier, lines, cover)
     return lines, cover
 
 
@@ -1087,6 +1098,115 @@ def coincidence_strata(rng, tier, lines, cover):
             lines.append("# twins2 %d" % len(tw))
             lines.extend(l if l is not None else "# none" for l in tw)
             g["history"] = g.get("history", 0) + 1
+
+
+# ---------------------------------------------------------------- slow (linear) convergence: hundreds to thousands of passes
+def py_fit_iters(fam, n, p, x, y, w, off, alpha, tol, maxiter):
+    """plain-double replica of the scoring loop (same formulas, naive sums, Gaussian elimination): used ONLY to count the passes
+    a request needs, for the coverage histogram and to place requests in iteration bands; -> (passes, converged)"""
+    w = w or [1.0] * n
+    off = off or [0.0] * n
+    m = sum(y) / n
+    beta = [m if fam in ("gaussian", "bernoulli") else math.log(m)] + [0.0] * (p - 1)
+    pd_prev, it = float("inf"), 0
+    while True:
+        eta = [sum(x[i * p + j] * beta[j] for j in range(p)) + off[i] for i in range(n)]
+        mu = [py_inv_link(fam, e) for e in eta]
+        if fam == "bernoulli":
+            dmu = [u * (1 - u) for u in mu]; var = dmu
+        elif fam == "gaussian":
+            dmu = [1.0] * n; var = dmu
+        else:
+            dmu = mu; var = mu if fam in ("poisson", "quasipoisson") else [u * u for u in mu]
+        try:
+            g = [-sum(x[i * p + j] * w[i] * (y[i] - mu[i]) * (dmu[i] / var[i]) for i in range(n)) for j in range(p)]
+            H = [[sum(x[i * p + a] * x[i * p + b] * w[i] * dmu[i] * dmu[i] / var[i] for i in range(n)) for b in range(p)] for a in range(p)]
+            if alpha > 0:
+                for j in range(1, p):
+                    g[j] += alpha * beta[j]
+                for j in range(p):
+                    H[j][j] += alpha
+            A = [row[:] + [g[k]] for k, row in enumerate(H)]
+            for c in range(p):
+                piv = max(range(c, p), key=lambda r: abs(A[r][c]))
+                A[c], A[piv] = A[piv], A[c]
+                for r in range(c + 1, p):
+                    f = A[r][c] / A[c][c]
+                    for k in range(c, p + 1):
+                        A[r][k] -= f * A[c][k]
+            sol = [0.0] * p
+            for c in reversed(range(p)):
+                sol[c] = (A[c][p] - sum(A[c][k] * sol[k] for k in range(c + 1, p))) / A[c][c]
+            beta = [b - d for b, d in zip(beta, sol)]
+            if fam == "bernoulli":
+                dev = -2 * sum(yy * math.log(u) + (1 - yy) * math.log(1 - u) for yy, u in zip(y, mu))
+            elif fam in ("poisson", "quasipoisson"):
+                dev = 2 * sum(u - yy - yy * math.log(u) + (yy * math.log(yy) if yy > 0 else 0.0) for yy, u in zip(y, mu))
+            elif fam == "gaussian":
+                dev = sum((yy - u) ** 2 for yy, u in zip(y, mu))
+            else:
+                dev = 2 * sum((yy - u) / u - math.log(yy / u) for yy, u in zip(y, mu))
+        except (ValueError, ZeroDivisionError, OverflowError):
+            return it + 1, False
+        pd = dev + alpha * math.sqrt(sum(b * b for b in beta[1:]))
+        conv = (not math.isinf(pd_prev)) and pd_prev != 0 and abs(pd - pd_prev) / pd_prev < tol
+        it += 1
+        if conv or it >= maxiter:
+            return it, conv
+        pd_prev = pd
+
+
+ITER_BANDS = [(130, 190), (193, 260), (300, 600), (1000, 4000)]
+
+
+def iter_band(k):
+    for lo, hi in ITER_BANDS:
+        if lo <= k <= hi:
+            return "%d-%d" % (lo, hi)
+    return "<130" if k < 130 else "other"
+
+
+def slow_problem(rng, fam, band):
+    """alpha = 10, small prior weights: the intercept (alpha on its Hessian diagonal, no penalty in its score) converges linearly at
+    rate ~ alpha / (alpha + S), S = sum of working weights; S is tuned so that the pass count lands in `band`"""
+    lo, hi = band
+    for attempt in range(40):
+        p = rng.randint(2, 3)
+        n = rng.randint(max(20, 15 * p if fam == "bernoulli" else 20), 60)
+        x, _ = design_matrix(rng, n, p)
+        b0 = {"bernoulli": rng.uniform(-1.5, -0.8), "poisson": rng.uniform(-1.0, -0.2), "gamma": rng.uniform(-0.5, 0.5)}[fam]
+        y = respond(rng, fam, n, p, x, None, b0=b0, bscale=0.5)
+        if fam == "bernoulli" and not (2 <= sum(y) <= n - 2):
+            continue
+        if fam == "poisson" and sum(y) < 3:
+            continue
+        tol = rng.choice([1e-13, 1e-14])
+        target = math.sqrt(lo * hi)                    # passes ~ 15 / -log10(rate)
+        rate = 10 ** (-15.0 / target)
+        S = 10.0 * (1 / rate - 1)
+        per = {"bernoulli": 0.18, "poisson": max(sum(y) / n, 0.05), "gamma": 1.0}[fam]
+        base = S / (n * per)
+        for scale in (1.0, 0.7, 1.4, 0.5, 2.0, 0.35, 2.8):
+            w = [base * scale * rng.uniform(0.8, 1.25) for _ in range(n)]
+            k, conv = py_fit_iters(fam, n, p, x, y, w, None, 10.0, tol, 5000)
+            if conv and lo <= k <= hi:
+                return (n, p, x, y, w, None), tol, k
+    return None
+
+
+def slow_strata(rng, tier, lines, cover):
+    g = cover.setdefault("slow_convergence", {"iteration_bands": {}})
+    plan = [("bernoulli", 1), ("poisson", 2), ("bernoulli", 3)] if tier == "quick" else \
+        [(f, b) for b in range(4) for f in ("bernoulli", "poisson", "gamma")] + [("bernoulli", 1), ("poisson", 3), ("bernoulli", 2)]
+    for fam, b in plan:
+        r = slow_problem(rng, fam, ITER_BANDS[b])
+        if r is None:
+            g["not-placed"] = g.get("not-placed", 0) + 1
+            continue
+        pr, tol, k = r
+        lines.append(mkline(fam, *pr, 10.0, tol, 5000))
+        g["iteration_bands"][iter_band(k)] = g["iteration_bands"].get(iter_band(k), 0) + 1
+        g[fam] = g.get(fam, 0) + 1
 
 
 def nontrivial(line, reply):
